@@ -117,7 +117,7 @@ impl CoseError {
 
 /// Read a CBOR [`Value`] from a byte slice, failing if any extra data remains after the `Value` has
 /// been read.
-fn read_to_value(mut slice: &[u8]) -> Result<Value> {
+pub(crate) fn read_to_value(mut slice: &[u8]) -> Result<Value> {
     let value = cbor::de::from_reader(&mut slice)?;
     if slice.is_empty() {
         Ok(value)
